@@ -1,0 +1,226 @@
+//! Verification hooks (feature `verif`): observation and control points used by an external
+//! correspondence check. Nothing here is compiled without the feature.
+//!
+//! - a process-global *draw hook* that replaces the two sampling sites (chance outcomes and
+//!   external-sampling player actions) by a function of `(kind, infoset index, pass, weights)`,
+//!   together with a log of every draw that was made;
+//! - access to the private categorical sampler for a given uniform variate;
+//! - a solve entry point with an explicit task target for the multi-threaded solvers;
+//! - a textual dump of the compact game representation.
+use crate::solve::{external, vanilla};
+use crate::{Game, Node, RegretBound, RegretParams, SolveError, SolveMethod, Strategies};
+use std::fmt::{Display, Write};
+use std::num::NonZeroUsize;
+use std::sync::Mutex;
+
+/// kind of a chance infoset draw
+pub const KIND_CHANCE: u8 = 0;
+/// kind of a draw at an infoset of player one (external sampling)
+pub const KIND_ONE: u8 = 1;
+/// kind of a draw at an infoset of player two (external sampling)
+pub const KIND_TWO: u8 = 2;
+
+/// A record of one draw
+#[derive(Debug, Clone, PartialEq)]
+pub struct DrawRecord {
+    /// [KIND_CHANCE], [KIND_ONE] or [KIND_TWO]
+    pub kind: u8,
+    /// index of the infoset
+    pub id: usize,
+    /// number of times the infoset's cache was reset before this draw
+    pub pass: u64,
+    /// the weights presented to the sampler
+    pub weights: Vec<f64>,
+    /// the index that was returned
+    pub result: usize,
+}
+
+type Hook = Box<dyn Fn(u8, usize, u64, &[f64]) -> usize + Send + Sync>;
+
+static HOOK: Mutex<Option<Hook>> = Mutex::new(None);
+static LOG: Mutex<Vec<DrawRecord>> = Mutex::new(Vec::new());
+static OBSERVE: Mutex<bool> = Mutex::new(false);
+
+/// Install (or remove) the draw hook
+pub fn set_draw_hook(hook: Option<Hook>) {
+    *HOOK.lock().unwrap() = hook;
+}
+
+/// When set, draws made by the production samplers are logged as well
+pub fn set_observe(on: bool) {
+    *OBSERVE.lock().unwrap() = on;
+}
+
+/// Take the log of draws made since the last call
+pub fn take_log() -> Vec<DrawRecord> {
+    std::mem::take(&mut *LOG.lock().unwrap())
+}
+
+/// Ask the hook for a draw; `None` means use the production sampler
+pub(crate) fn draw(kind: u8, id: usize, pass: u64, weights: &[f64]) -> Option<usize> {
+    let guard = HOOK.lock().unwrap();
+    let hook = guard.as_ref()?;
+    let result = hook(kind, id, pass, weights);
+    LOG.lock().unwrap().push(DrawRecord {
+        kind,
+        id,
+        pass,
+        weights: weights.to_vec(),
+        result,
+    });
+    Some(result)
+}
+
+/// Log a draw made by a production sampler
+pub(crate) fn observe(kind: u8, id: usize, pass: u64, weights: &[f64], result: usize) {
+    if *OBSERVE.lock().unwrap() {
+        LOG.lock().unwrap().push(DrawRecord {
+            kind,
+            id,
+            pass,
+            weights: weights.to_vec(),
+            result,
+        });
+    }
+}
+
+struct FixedRng(u64);
+
+impl rand::RngCore for FixedRng {
+    fn next_u32(&mut self) -> u32 {
+        (self.0 >> 32) as u32
+    }
+    fn next_u64(&mut self) -> u64 {
+        self.0
+    }
+    fn fill_bytes(&mut self, dest: &mut [u8]) {
+        for (d, s) in dest.iter_mut().zip(self.0.to_le_bytes().iter().cycle()) {
+            *d = *s;
+        }
+    }
+    fn try_fill_bytes(&mut self, dest: &mut [u8]) -> Result<(), rand::Error> {
+        self.fill_bytes(dest);
+        Ok(())
+    }
+}
+
+/// Run the private categorical sampler with the uniform variate `k * 2^-53`
+pub fn multinomial_index(probs: &[f64], k: u64) -> usize {
+    use rand_distr::Distribution;
+    crate::solve::multinomial_for_verif(probs).sample(&mut FixedRng(k << 11))
+}
+
+/// The uniform variate a generator word `k << 11` is turned into
+pub fn uniform_of(k: u64) -> f64 {
+    use rand::Rng;
+    FixedRng(k << 11).gen()
+}
+
+impl<I, A> Game<I, A> {
+    /// [Game::solve] with an explicit task target for the multi-threaded solvers
+    pub fn verif_solve_with_target(
+        &self,
+        method: SolveMethod,
+        max_iter: u64,
+        max_reg: f64,
+        num_threads: usize,
+        target: usize,
+        params: Option<RegretParams>,
+    ) -> Result<(Strategies<I, A>, RegretBound), SolveError> {
+        let [first_player, second_player] = &self.player_infosets;
+        let threads = NonZeroUsize::new(num_threads).unwrap();
+        let target = NonZeroUsize::new(target).unwrap();
+        let params = params.unwrap_or_default();
+        let players = [&**first_player, &**second_player];
+        let (regrets, probs) = match method {
+            SolveMethod::Full => vanilla::solve_full_multi(
+                &self.root,
+                &self.chance_infosets,
+                players,
+                max_iter,
+                max_reg,
+                (threads, target),
+                &params,
+            ),
+            SolveMethod::Sampled => vanilla::solve_sampled_multi(
+                &self.root,
+                &self.chance_infosets,
+                players,
+                max_iter,
+                max_reg,
+                (threads, target),
+                &params,
+            ),
+            SolveMethod::External => external::solve_external_multi(
+                &self.root,
+                &self.chance_infosets,
+                players,
+                max_iter,
+                max_reg,
+                (threads, target),
+                &params,
+            ),
+        }?;
+        Ok((Strategies { game: self, probs }, RegretBound::new(regrets)))
+    }
+}
+
+fn dump_node(node: &Node, out: &mut String) {
+    match node {
+        Node::Terminal(pay) => write!(out, " T {:016x}", pay.to_bits()).unwrap(),
+        Node::Chance(chance) => {
+            write!(out, " C {} {}", chance.infoset, chance.outcomes.len()).unwrap();
+            for next in chance.outcomes.iter() {
+                dump_node(next, out);
+            }
+        }
+        Node::Player(player) => {
+            let num = match player.num {
+                crate::PlayerNum::One => 1,
+                crate::PlayerNum::Two => 2,
+            };
+            write!(out, " P {} {} {}", num, player.infoset, player.actions.len()).unwrap();
+            for next in player.actions.iter() {
+                dump_node(next, out);
+            }
+        }
+    }
+}
+
+impl<I: Display, A: Display> Game<I, A> {
+    /// A textual dump of the compact representation (tables in index order, singles sorted)
+    pub fn verif_dump(&self) -> String {
+        let mut out = String::new();
+        write!(out, "CH {}", self.chance_infosets.len()).unwrap();
+        for info in self.chance_infosets.iter() {
+            write!(out, " {}", info.probs.len()).unwrap();
+            for prob in info.probs.iter() {
+                write!(out, " {:016x}", prob.to_bits()).unwrap();
+            }
+        }
+        for (num, infos) in self.player_infosets.iter().enumerate() {
+            write!(out, " P{} {}", num + 1, infos.len()).unwrap();
+            for info in infos.iter() {
+                write!(out, " {} {}", info.infoset, info.verif_prev()).unwrap();
+                write!(out, " {}", info.actions.len()).unwrap();
+                for act in info.actions.iter() {
+                    write!(out, " {}", act).unwrap();
+                }
+            }
+        }
+        for (num, singles) in self.single_infosets.iter().enumerate() {
+            let mut items: Vec<String> = singles
+                .iter()
+                .map(|(info, act)| format!("{} {}", info, act))
+                .collect();
+            items.sort();
+            write!(out, " S{} {}", num + 1, items.len()).unwrap();
+            for item in items {
+                write!(out, " {}", item).unwrap();
+            }
+        }
+        out.push_str(" N");
+        dump_node(&self.root, &mut out);
+        out
+    }
+}
